@@ -375,10 +375,27 @@ def initOk (t : Ty) (e : Option XExpr) : Bool :=
 def FuncDef.ctx (fd : FuncDef) : Ctx :=
   fd.params.map (fun p => (p.name, p.ty)) ++ fd.locals.map (fun l => (l.name, l.ty)) ++ [(fd.name, fd.ret)]
 
+/-- The initialiser of a FUNCTION local (`VAR x : T := e;`).  The checker does not look at it at
+all — no name resolution, no type check (`trust-hir` validates only string initialisers) — so
+anything that can be lowered is accepted; `init_locals` evaluates it at every call in the new
+frame and stores the value as is. -/
+def localInitOk (l : Local) : Bool :=
+  match l.init with
+  | none => true
+  | some e => e.lowerable
+
+/-- What a checker would have required of that initialiser: assignable to the declared type in
+the scope of the parameters and locals.  Used by the oracle only, to attribute a failure to the
+recorded finding "initialisers of frame-local variables are not checked". -/
+def localInitTyped (fs : List FuncDef) (fd : FuncDef) (l : Local) : Bool :=
+  match l.init with
+  | none => true
+  | some e => assignOkX fs [] [] fd.ctx [] l.ty e
+
 def funcOk (fs : List FuncDef) (ce : Bool) (fd : FuncDef) : Bool :=
   distinctNames (fd.params.map (·.name) ++ fd.locals.map (·.name))
     && fd.params.all (fun p => initOk p.ty p.default)
-    && fd.locals.all (fun l => initOk l.ty l.init)
+    && fd.locals.all localInitOk
     && checkXBlock fs (Pou.mk (some (fd.name, fd.ret))
         ((fd.params.filter (fun q => q.dir = .inp)).map (·.name)) [] []) ce fd.ctx [] false fd.body
     && sawReturnBlock fd.name ce fd.body
@@ -399,7 +416,7 @@ def XProgram.instCtx (p : XProgram) : List (String × FbDef) :=
 
 def XProgram.acceptedWith (ce : Bool) (p : XProgram) : Bool :=
   distinctNames (p.decls.map (·.name) ++ p.insts.map (·.1) ++ p.aggs.map (·.1)) && p.decls.all VarDecl.ok
-    && p.aggs.all (fun (_, d) => match d with | .arr lo hi _ => decide (lo ≤ hi) | .str _ fs => distinctNames (fs.map (·.1.toUpper)))
+    && p.aggs.all (fun (_, d) => match d with | .arr lo hi _ => decide (lo ≤ hi) && decide (-i32Max ≤ lo) && decide (hi ≤ i32Max) | .str _ fs => distinctNames (fs.map (·.1.toUpper)))
     && distinctNames (p.funcs.map (·.name.toUpper) ++ p.fbs.map (·.name.toUpper))
     && p.funcs.all (funcOk p.funcs ce)
     && p.fbs.all (fbOk p.funcs ce)
